@@ -1,13 +1,14 @@
 SPECIFICATION FairSpec
 VIEW view
+
 CONSTANTS
   N = 2
   Pos = {p0, p1, p2, p3, p4}
   NumTokens = 2
   HbTimeout = 2
-  MaxClock = 6
+  MaxClock = 5
   Cfg0 <- Cfg0Live
   Cfgs <- AllCfgs
-  Bud0 <- BudLive
-INVARIANTS TypeOK
-PROPERTIES Recovers ReRegisters RecoversNoCollision
+  Bud0 <- BudLiveK
+INVARIANTS TypeOK HeartbeatFresh
+PROPERTIES Recovers ReRegisters
